@@ -427,6 +427,12 @@ static CO_ERR COCSdoDownloadSegmented(CO_CSDO *csdo)
 
 static CO_ERR COCSdoFinishDownloadSegmented(CO_CSDO *csdo)
 {
+    uint8_t cmd;
+
+    cmd = CO_GET_BYTE(csdo->Frm, 0u);
+    if (((cmd >> 4u) & 0x01u) != csdo->Tfer.TBit) {
+        COCSdoAbort(csdo, CO_SDO_ERR_TBIT);
+    }
     COCSdoTransferFinalize(csdo);
     return CO_ERR_SDO_SILENT;
 }
